@@ -3684,13 +3684,14 @@ const (
 
 // Format formats the node.
 func (node *Order) Format(buf *TrackedBuffer) {
-	if node, ok := node.Expr.(*NullVal); ok {
-		buf.Myprintf("%v", node)
+	// The default direction is left out for the ORDER BY NULL and ORDER BY RAND() idioms.
+	if _, ok := node.Expr.(*NullVal); ok && node.Direction == AscScr {
+		buf.Myprintf("%v", node.Expr)
 		return
 	}
-	if node, ok := node.Expr.(*FuncExpr); ok {
-		if node.Name.Lowered() == "rand" {
-			buf.Myprintf("%v", node)
+	if fn, ok := node.Expr.(*FuncExpr); ok && node.Direction == AscScr {
+		if fn.Name.Lowered() == "rand" {
+			buf.Myprintf("%v", fn)
 			return
 		}
 	}
